@@ -438,6 +438,28 @@ func c01Allowed(onlyIn, onlyOut []string) ([]string, []string) {
 	onlyIn = drop(onlyIn, func(t string) bool { return t == "" })
 	// implicit numbering made explicit: unnamed parameters and results get their %N written out
 	onlyOut = drop(onlyOut, func(t string) bool { return t == "" || t == "%#" })
+	// a non-distinct DISubprogram is printed with an explicit "isDefinition: false" (documented in
+	// ir/metadata: it states the default LLVM assumes for a declaration; llvm-as accepts it)
+	nDecl := 0
+	for _, t := range onlyOut {
+		if t == "isDefinition:" {
+			nDecl++
+		}
+	}
+	if nDecl > 0 {
+		k1, k2 := nDecl, nDecl
+		onlyOut = drop(onlyOut, func(t string) bool {
+			if t == "isDefinition:" && k1 > 0 {
+				k1--
+				return true
+			}
+			if t == "false" && k2 > 0 {
+				k2--
+				return true
+			}
+			return false
+		})
+	}
 	return onlyIn, onlyOut
 }
 
